@@ -873,8 +873,11 @@ func (t *wordMatchTree) matches(cp *contentProvider, cost int, known map[matchTr
 				byteMatchSz: uint32(len(t.word)),
 				fileName:    t.fileName,
 			})
+			offset += idx + len(t.word)
+		} else {
+			// A rejected candidate may overlap a later valid match.
+			offset += idx + 1
 		}
-		offset += idx + len(t.word)
 	}
 
 	t.found = found
@@ -1334,8 +1337,15 @@ func regexpToWordMatchTree(q *query.Regexp, opt matchTreeOpt) (_ *wordMatchTree,
 		return nil, false
 	}
 
+	// wordMatchTree checks that the neighbouring bytes are not word characters,
+	// which is only equivalent to \b if the literal starts and ends with one.
+	word := string(sub[1].Rune)
+	if len(word) == 0 || !characterClass(word[0]) || !characterClass(word[len(word)-1]) {
+		return nil, false
+	}
+
 	return &wordMatchTree{
-		word:     string(sub[1].Rune),
+		word:     word,
 		fileName: q.FileName,
 	}, true
 }
